@@ -214,7 +214,7 @@ class Analyzer:
         self.problems = []
 
     def load(self, cfile):
-        src = os.path.join(self.repo, 'src', cfile)
+        src = cfile if os.path.isabs(cfile) else os.path.join(self.repo, 'src', cfile)
         p = subprocess.run(['clang-14'] + self.flags + ['-Xclang', '-ast-dump=json', '-fsyntax-only', src], capture_output=True, text=True)
         if p.returncode != 0:
             raise RuntimeError('clang failed on %s: %s' % (cfile, p.stderr[-2000:]))
@@ -255,12 +255,15 @@ class FnWalk:
         self.an = an; self.f = f; self.tu = f.tu
         self.st = State()
         self.multi = set()        # regions that may stand for several objects (allocated in a loop)
+        self.frames = []          # enclosing loops / switches: states at their break / continue statements
         self.loop = 0
         self.static_locals = {}
         self.param_idx = {p['id']: i for i, p in enumerate(f.params)}
         self.rets = set(); self.ret_exp = set()
         self.array_locals = set()
+        self.flow_insensitive = False
         def pre(n):
+            if kind(n) in ('GotoStmt', 'IndirectGotoStmt'): self.flow_insensitive = True
             if kind(n) == 'VarDecl':
                 if n.get('storageClass') == 'static':
                     self.static_locals[n['id']] = '%s::%s' % (f.name, n['name'])
@@ -276,7 +279,13 @@ class FnWalk:
         f.statics = set(self.static_locals.values())
         for i, p in enumerate(f.params):
             self.st.store(('L:' + p['id'], '@'), {'P:%d' % i}, True)
-        self.stmt(self.body())
+        if self.flow_insensitive:
+            # goto: no strong updates, iterate the body until the (monotonically growing) state is stable
+            for it in range(12):
+                before = self.st.copy(); self.stmt(self.body())
+                if self.st == before: break
+        else:
+            self.stmt(self.body())
         self.snapshot()
         f.sum.ret |= self.ret_exp
         self.extract_locale()
@@ -306,7 +315,7 @@ class FnWalk:
             elif r.startswith('P:'): self.f.sum.pw.add(int(r[2:]))
             elif r == 'X': self.f.unknown_writes.add('?unknown-pointer')
     def singular(self, r):
-        if r in self.multi: return False
+        if r in self.multi or self.flow_insensitive: return False
         if r.startswith('L:'): return r[2:] not in self.array_locals
         if r.startswith('H:'): return True
         return False
@@ -593,30 +602,51 @@ class FnWalk:
             else:
                 body, cond = raw[0], raw[1]; inc = {}
             self.loop += 1
-            for it in range(8):
+            breaks = []
+            for it in range(10):
                 s_in = self.st.copy()
-                if cond: self.val(cond)
+                fr = dict(kind='loop', breaks=[], continues=[]); self.frames.append(fr)
+                if cond and k != 'DoStmt': self.val(cond)
                 if body: self.stmt(body)
+                for c_ in fr['continues']: self.st = self.st.join(c_)
                 if inc: self.stmt(inc)
+                if cond and k == 'DoStmt': self.val(cond)
+                self.frames.pop(); breaks += fr['breaks']
                 self.st = s_in.join(self.st)
                 if self.st == s_in: break
+            else:
+                self.an.problems.append('%s: loop state did not stabilise' % self.f.name)
+            for b_ in breaks: self.st = self.st.join(b_)
             self.loop -= 1
         elif k == 'SwitchStmt':
             c = inner(n); self.val(c[0])
-            s0 = self.st.copy(); acc = s0
-            self.stmt(c[-1])                 # the body as one block (cases fall through / break: over-approximate by join with entry)
-            self.st = self.st.join(s0)
-        elif k in ('CaseStmt', 'DefaultStmt', 'LabelStmt', 'AttributedStmt'):
+            fr = dict(kind='switch', breaks=[], continues=[], entry=self.st.copy()); self.frames.append(fr)
+            self.stmt(c[-1])
+            self.frames.pop()
+            self.st = self.st.join(fr['entry'])          # no case taken / fall out of the last case
+            for b_ in fr['breaks']: self.st = self.st.join(b_)
+        elif k in ('CaseStmt', 'DefaultStmt'):
+            sw = [f_ for f_ in self.frames if f_['kind'] == 'switch']
+            if sw: self.st = self.st.join(sw[-1]['entry'])    # a label is reached from the switch head too
+            for c in inner(n):
+                if kind(c) and ('Stmt' in kind(c)): self.stmt(c)
+                else: self.val(c)
+        elif k in ('LabelStmt', 'AttributedStmt'):
             for c in inner(n):
                 if kind(c) and ('Stmt' in kind(c)): self.stmt(c)
                 else: self.val(c)
         elif k == 'ReturnStmt':
             for c in inner(n): self.rets |= self.val(c)
             self.snapshot()
-        elif k in ('BreakStmt', 'ContinueStmt', 'NullStmt'):
+        elif k == 'BreakStmt':
+            if self.frames: self.frames[-1]['breaks'].append(self.st.copy())
+        elif k == 'ContinueStmt':
+            lp = [f_ for f_ in self.frames if f_['kind'] == 'loop']
+            if lp: lp[-1]['continues'].append(self.st.copy())
+        elif k == 'NullStmt':
             pass
-        elif k == 'GotoStmt':
-            self.an.problems.append('%s: goto is outside the analysed subset' % self.f.name)
+        elif k in ('GotoStmt', 'IndirectGotoStmt'):
+            pass          # functions with goto are analysed flow-insensitively (see analyze)
         else:
             self.val(n)
 
@@ -781,12 +811,33 @@ def analyze(repo, bdir):
     an.run()
     return an
 
+def selftest(path=None):
+    """analyse harness/footprint_selftest.c and compare with its EXPECT annotations -> list of disagreements"""
+    path = path or os.path.join(os.path.dirname(HERE), 'harness', 'footprint_selftest.c')
+    an = Analyzer('/nonexistent', [])
+    cfile, ast = an.load(path)
+    an.add_tu(os.path.basename(path), ast)
+    an.run()
+    bad = list(an.problems); n = 0
+    for m in re.finditer(r'EXPECT (\w+): W=([\w:,]*)', open(path).read()):
+        fn, exp = m.group(1), set(x for x in m.group(2).split(',') if x)
+        n += 1
+        if fn not in an.fns: bad.append('selftest: function %s not found' % fn); continue
+        got = set(an.fns[fn].writes) | set(an.fns[fn].unknown_writes)
+        if got != exp: bad.append('selftest %s: expected writes %s, extractor reports %s' % (fn, sorted(exp), sorted(got)))
+    return n, bad
+
 def main():
+    if sys.argv[1:2] == ['--selftest']:
+        n, bad = selftest()
+        for b in bad: print('PROBLEM', b)
+        print('selftest: %d idioms, %d disagreements' % (n, len(bad)))
+        return 3 if bad else 0
     bdir, lean_path, json_path = sys.argv[1:4]
     repo = os.environ.get('VERIF_REPO', cbuild.REPO)
     an = analyze(repo, bdir)
     meta = emit(an, repo, lean_path, json_path)
-    for p in meta['problems']: print('PROBLEM', p)
+    for p in sorted(set(meta['problems'])): print('PROBLEM', p)
     print('functions %d, public %d, undefined public %s' % (len(meta['functions']), len(meta['classes']), meta['undefined_public']))
     return 3 if meta['problems'] else 0
 
